@@ -288,14 +288,19 @@ DEE_RE = re.compile(rb" d=[^ \t\n]* t=")
 
 
 def norm_files(line):
-    """E lines: mask the dee field of the snapshot/export files (never compared)"""
+    """mask the dee field (never compared) in the snapshot/export files of E lines, and in keys that
+    contain a packed value"""
     parts = line.split(" ")
     out = []
     for p in parts:
         m = re.fullmatch(r"([sf]\d+)=([0-9a-f]+|-)", p)
+        k = re.fullmatch(r"([0-9a-f]+):(-?\d+):(\d+)", p)
         if m and len(m.group(2)) % 2 == 0:
             body = DEE_RE.sub(b" d=* t=", unhx(m.group(2)))
             out.append("%s=%s" % (m.group(1), hx(body)))
+        elif k and len(k.group(1)) % 2 == 0 and b" d=" in unhx(k.group(1)):
+            # (out-of-domain keys only) a packed value that leaked into a key through a line break
+            out.append("%s:%s:%s" % (hx(DEE_RE.sub(b" d=* t=", unhx(k.group(1)))), k.group(2), k.group(3)))
         else:
             out.append(p)
     return " ".join(out)
@@ -439,7 +444,7 @@ def run(ctx):
 
     # ---- cases
     rng = random.Random(ctx.seed * 1000003 + 17)
-    ncases, nood = (70, 25) if ctx.tier == "quick" else (420, 140)
+    ncases, nood = (70, 25) if ctx.tier == "quick" else (650, 220)
     cases = boundary_cases("b")
     cases += [gen_case(rng, "g%d" % i) for i in range(ncases)]
     cases += [gen_case(rng, "o%d" % i, ood=True) for i in range(nood)]
@@ -485,7 +490,7 @@ def run(ctx):
     # ---- correspondence
     def canon(l):
         l = re.sub(r" order=\S*", "", l)
-        return norm_files(l) if l.startswith("E ") else l
+        return norm_files(l) if l[:2] in ("E ", "O ", "I ") else l
     icanon = [canon(l) for l in ilines]
     mcanon = [canon(l) for l in mlines]
     mism = []
